@@ -4,7 +4,7 @@ namespace ZV.C14
 
 /-! ### the association-list map -/
 
-theorem get_set_same (m : Cache) (k : Int) (e : Entry) : (m.set k e).get k = some e := by
+theorem get_set_same (m : Cache) (k : Key) (e : Entry) : (m.set k e).get k = some e := by
   induction m with
   | nil => simp [Cache.set, Cache.get]
   | cons p rest ih =>
@@ -13,7 +13,7 @@ theorem get_set_same (m : Cache) (k : Int) (e : Entry) : (m.set k e).get k = som
     · simp [Cache.set, Cache.get, h]
     · simp [Cache.set, Cache.get, h, ih]
 
-theorem get_set_other (m : Cache) (k k2 : Int) (e : Entry) (h : k ≠ k2) : (m.set k e).get k2 = m.get k2 := by
+theorem get_set_other (m : Cache) (k k2 : Key) (e : Entry) (h : k ≠ k2) : (m.set k e).get k2 = m.get k2 := by
   induction m with
   | nil => simp [Cache.set, Cache.get, h]
   | cons p rest ih =>
@@ -25,7 +25,7 @@ theorem get_set_other (m : Cache) (k k2 : Int) (e : Entry) (h : k ≠ k2) : (m.s
       · simp [Cache.set, Cache.get, h1, h2, ih]
 
 /-- keys of a map stay unique under `set` -/
-theorem set_keys_nodup (m : Cache) (k : Int) (e : Entry) (h : (m.map (·.1)).Nodup) :
+theorem set_keys_nodup (m : Cache) (k : Key) (e : Entry) (h : (m.map (·.1)).Nodup) :
     ((m.set k e).map (·.1)).Nodup := by
   induction m with
   | nil => simp [Cache.set]
@@ -54,32 +54,32 @@ theorem set_keys_nodup (m : Cache) (k : Int) (e : Entry) (h : (m.map (·.1)).Nod
 /-! ### first-wins / last-wins folds -/
 
 def fwStep (m : Cache) (e : Entry) : Cache :=
-  match m.get e.serial with | some _ => m | none => m.set e.serial e
+  match m.get (decChars e.serial) with | some _ => m | none => m.set (decChars e.serial) e
 
 theorem firstWins_eq (es : List Entry) : firstWins es = es.foldl fwStep [] := rfl
 
-theorem fw_fold_get (es : List Entry) (m : Cache) (s : Int) :
+theorem fw_fold_get (es : List Entry) (m : Cache) (s : Key) :
     (es.foldl fwStep m).get s =
       match m.get s with
       | some e => some e
-      | none => es.find? (fun e => decide (e.serial = s)) := by
+      | none => es.find? (fun e => decide (decChars e.serial = s)) := by
   induction es generalizing m with
   | nil => simp; cases m.get s <;> rfl
   | cons e rest ih =>
     simp only [List.foldl_cons]
     rw [ih]
     unfold fwStep
-    cases hg : m.get e.serial with
+    cases hg : m.get (decChars e.serial) with
     | some x =>
       simp only
       cases hs : m.get s with
       | some y => rfl
       | none =>
-        have hne : e.serial ≠ s := by intro h; rw [h] at hg; rw [hg] at hs; cases hs
+        have hne : decChars e.serial ≠ s := by intro h; rw [h] at hg; rw [hg] at hs; cases hs
         simp [List.find?_cons, hne]
     | none =>
       simp only
-      by_cases hes : e.serial = s
+      by_cases hes : decChars e.serial = s
       · subst hes
         rw [get_set_same, hg]
         simp [List.find?_cons]
@@ -88,9 +88,9 @@ theorem fw_fold_get (es : List Entry) (m : Cache) (s : Int) :
         | some y => rfl
         | none => simp [List.find?_cons, hes]
 
-theorem lw_fold_get (es : List Entry) (m : Cache) (s : Int) :
-    (es.foldl (fun m e => m.set e.serial e) m).get s =
-      match es.reverse.find? (fun e => decide (e.serial = s)) with
+theorem lw_fold_get (es : List Entry) (m : Cache) (s : Key) :
+    (es.foldl (fun m e => m.set (decChars e.serial) e) m).get s =
+      match es.reverse.find? (fun e => decide (decChars e.serial = s)) with
       | some e => some e
       | none => m.get s := by
   induction es generalizing m with
@@ -98,10 +98,10 @@ theorem lw_fold_get (es : List Entry) (m : Cache) (s : Int) :
   | cons e rest ih =>
     simp only [List.foldl_cons, List.reverse_cons]
     rw [ih, List.find?_append]
-    cases hr : rest.reverse.find? (fun e => decide (e.serial = s)) with
+    cases hr : rest.reverse.find? (fun e => decide (decChars e.serial = s)) with
     | some x => simp
     | none =>
-      by_cases hes : e.serial = s
+      by_cases hes : decChars e.serial = s
       · subst hes; simp [get_set_same]
       · simp [hes, get_set_other _ _ _ _ hes]
 
